@@ -12,23 +12,26 @@ TIE = ("Tie to the code, checked on every run: the hand-written Coq model is ext
 CLAIMED = {
  "C01": C("Proof (Coq). Proved for every operator table and every string: the tokenizer model never panics and its fuel always suffices "
           "(C01_lexer_total); the parser model never panics (C01_parser_no_panic, C01_no_panic), makes progress in every successful sub-parse (C01_progress) "
-          "and therefore terminates - the explicit fuel is never exhausted (C01_terminates) - so parsing returns Ok or Err (C01_total); every returned tree is "
+          "and therefore terminates - the explicit fuel is never exhausted (C01_terminates), and the outcome is the same for every larger fuel (C01_fuel_irrelevant) - so parsing returns Ok or Err (C01_total); every returned tree is "
           "at most MAX_DEPTH+1 high (C01_ast_height), which bounds the recursion of Clone/Drop/exec/expr/describe; the nesting guard refuses at MAX_DEPTH "
           "(C01_depth_guard). All by mutual induction over the eight parser functions. Partial only in that stack BYTES are measured, not modelled. " + TIE +
           "24 deep/long input families (incl. nested parenthesised chains whose tree height is quadratic in the nesting) at n up to 100 000, each in its own "
           "process on a 2 MiB thread.",
           "Coq kernel; Lexer.v/Parser.v/Printer.v hand-written and tied by correspondence; stack bytes are a property of rustc's frames "
           "(measured, not modelled).", "Coq proof (invariants, progress and height bound by mutual induction over the parser model) + differential correspondence + abort detection in child processes", "6/C01"),
- "C02": C("Proof (Coq), partial. Proved and re-checked against generated facts on every run: the operator table dumped from the impl equals "
-          "README.md's table (+ `in`), setters are exactly the right-associative level-20 operators (C02_table, C02_fixity_sets, C02_table_wf); "
-          "binding powers separate adjacent precedences (C08_*). Proved for ARBITRARY tables, operators and names by symbolic execution of the parser "
-          "model: higher precedence first and equal precedence by the first operator's associativity (C02_two_operators), prefix tighter than infix "
-          "(C02_prefix_tighter_than_infix), postfix tighter than prefix (C02_postfix_tighter_than_prefix), `x not OP y` = not(x OP y) (C02_not_infix), and the "
-          "built-in table meets their hypotheses (C02_builtins_wf). The grouping theorem (B) parse(unparse t) = t for the whole grammar is not yet "
-          "ported from the prototype: grouping is decided on each run by an executable spec of the documented rules (minimal-parenthesis "
-          "renderer) against impl and model: all ordered operator pairs x {plain, not} x 3 shapes exhaustively + random trees. " + TIE,
-          "Coq kernel + vm_compute for the generated-fact equalities; the documented grouping rules as Python oracle (vlib/props/progs.py).",
-          "Coq generated-fact theorems + oracle-checked differential correspondence", "6/C02"),
+ "C02": C("Proof (Coq). THE GROUPING THEOREM (C02_round_trip, lemma (B), Lemmas/PrattFull.v): for an ARBITRARY operator table in which `?`/`:` are "
+          "unregistered and EVERY well-formed tree (names, literals, infix operators, `x not OP y`, prefix, postfix, conditionals, calls, lists, maps; any size "
+          "and shape within the parser's depth limit, given exactly by the function `need`), parsing the printer model's token image - parentheses exactly where "
+          "the documented precedence/associativity rule demands them - returns exactly that tree, all tokens consumed. Proved by strong induction over trees with a "
+          "continuation-style loop invariant, on the very parser model the correspondence ties to parser.rs. The premises are evaluated on every tree of every run "
+          "(evidence: round_trip_theorem_side_conditions). Also proved and re-checked against generated facts on every run: the operator table dumped from the impl "
+          "equals README.md's table (+ `in`), setters are exactly the right-associative level-20 operators (C02_table, C02_fixity_sets, C02_table_wf); the two-"
+          "operator, prefix, postfix and `not` clauses for arbitrary tables (C02_two_operators, C02_prefix_tighter_than_infix, C02_postfix_tighter_than_prefix, "
+          "C02_not_infix); the built-in table meets all hypotheses (C02_builtins_wf). Every run additionally decides grouping by an executable spec of the "
+          "documented rules against impl and model: all ordered operator pairs x {plain, not} x 3 shapes exhaustively + random trees. " + TIE,
+          "Coq kernel + vm_compute for the generated-fact equalities; Parser.v/Printer.v/Etoks.v hand-written and tied by correspondence; the documented grouping "
+          "rules as Python oracle (vlib/props/progs.py).",
+          "Coq proof (parse o print = id by induction over trees, arbitrary table) + generated-fact theorems + oracle-checked differential correspondence", "6/C02"),
  "C03": C("Proof (Coq) at handler level: for ALL operand pairs a wrongly typed operand of any of the 24 numeric/bit/ordering operators, of "
           "||, &&, beginWith, endWith, in is an error (C03_type_errors, by case analysis not sampling), no coercion (C03_no_coercion), boolean "
           "logic / equality / membership are the documented functions (C03_logic), bit results are the 64-bit two's-complement wrap "
@@ -86,10 +89,16 @@ CLAIMED = {
           "whole parse under re-layout and re-parenthesisation is decided on each run: every gap of 600 accepted programs rewritten, every subexpression "
           "wrapped in 1/2/5 pairs of parentheses, ASTs compared. " + TIE, "Coq kernel; token spans from the hook.",
           "Coq tokenizer lemmas + metamorphic correspondence (layout and parenthesis variants)", "6/C11"),
- "C12": C("Proof (Coq), partial. Proved: quote choice, the `x not OP y` spelling, parenthesisation of conditional / infix / postfix operands "
-          "(C12_quote_choice, C12_not_infix_form, C12_parenthesised_operands). The round trip parse(expr(t)) = t is decided on each run: every infix operator "
-          "under every other on either side in plain and `not` form, prefix/postfix over all compound operand kinds, strings with either quote, random trees. " + TIE,
-          "Coq kernel; Printer.v transcribes the expr family.", "Coq printer lemmas + exhaustive-nesting round-trip correspondence", "6/C12"),
+ "C12": C("Proof (Coq). The round trip is a theorem: for every operator table and every well-formed tree or `;`-program within the depth limit, parsing the "
+          "printer's token image gives back the tree (C12_round_trip_tokens); whenever the tokenizer model reads the printer model's TEXT as that token image "
+          "(a computable check, C12_round_trip's second premise) parse(expr(t)) = t and expr is idempotent (C12_round_trip, C12_idempotent). Both computable "
+          "premises are evaluated by the extracted model on EVERY tree of every run (evidence: round_trip_theorem_side_conditions; a tree on which the premises "
+          "hold but the text is not the token image is reported as a broken tie). Also proved: quote choice, the `x not OP y` spelling, parenthesisation of "
+          "conditional / infix / postfix operands (C12_quote_choice, C12_not_infix_form, C12_parenthesised_operands). Every run additionally decides the round trip "
+          "on: every infix operator under every other on either side in plain and `not` form, prefix/postfix over all compound operand kinds, strings with either "
+          "quote, random trees. " + TIE,
+          "Coq kernel; Printer.v transcribes the expr family, Etoks.v its token image (same parenthesisation functions); text = token image is checked per tree, "
+          "not proved for all names/numbers/strings.", "Coq proof (parse o print = id) + per-tree computable side conditions + exhaustive-nesting round-trip correspondence", "6/C12"),
  "C13": C("Proof (Coq), partial (runtime trusted). For ANY number of threads, ANY programs and EVERY schedule of the interleaving model (once-cell gate, "
           "atomic registry accesses): no thread inside a call ever sees a partially initialised table (C13_init_atomic), some thread can always step (C13_no_deadlock), "
           "an un-interleaved call has its sequential result and effect (C13_solo_call_sequential), the schedule is the only non-determinism (C13_step_deterministic). "
